@@ -159,12 +159,15 @@ CHECKS["C20"] = {
             "(thorough: ALL 2^31 pairs 1<=Min<=Max<=65535 x answers {0,n-1} through a recording stub transport.Net): n passed to Intn = Max-Min+1, bound port in [Min,Max], advertised port = bound port, "
             "advertised IP = RelayAddress, exactly one socket open and freed on Close; (ii) Range/Static/None generators x networks x listen address x MaxRetries x requested port {0, free, in use, bind-fail, twice}: "
             "success => requested = bound = advertised, failure => error, nothing returned, nothing new open; (iii) all histories (depth 6 quick / 7 thorough) over range [50000,50002] x MaxRetries {1,2,10} x udp/tcp of "
-            "{allocate with every distinguishable Intn answer sequence, close live socket i}: open sockets = model set after every step, no port live twice, clean failure only when every answered port was busy. "
+            "{allocate with every distinguishable Intn answer sequence, close live socket i}: open sockets = model set after every step, no port live twice, clean failure only when every answered port was busy; "
+            "(v) histories over ONE generator instance: every sequence (depth 5 quick / 7 thorough) of {allocate any port, allocate requested P1, allocate requested P2, close i-th live socket} x Static/None/Range(udp) x udp4/tcp4/udp6/tcp6 x "
+            "wildcard/specific listen address: fresh socket on a port no live allocation of the history holds, requested = bound = advertised, relay IP advertised, held requested port fails cleanly (udp), Close frees. "
             "A class is (net, range-size class, port position) / (generator, network, mode, outcome) / (MaxRetries, live-before, outcome, Intn calls).",
     "parts": [A("range", "./checks/c20", "TestC20Range", budget={"quick": 60, "thorough": 1500}),
               A("requested", "./checks/c20", "TestC20Requested", budget={"quick": 60, "thorough": 120}),
               A("filldrain", "./checks/c20", "TestC20FillDrain", budget={"quick": 60, "thorough": 900}),
-              A("filldrain-top", "./checks/c20", "TestC20FillDrainTop", budget={"quick": 60, "thorough": 900})],
+              A("filldrain-top", "./checks/c20", "TestC20FillDrainTop", budget={"quick": 60, "thorough": 900}),
+              A("histories", "./checks/c20", "TestC20Histories", budget={"quick": 60, "thorough": 900})],
 }
 
 CHECKS["C03"] = {
